@@ -251,7 +251,7 @@ type AuthEventProvider interface {
 // AuthEvents is an implementation of AuthEventProvider backed by a map.
 type AuthEvents struct {
 	events  map[StateKeyTuple]PDU
-	roomIDs map[string]struct{}
+	roomIDs map[string]int // number of held events per room ID
 }
 
 // Valid verifies that all auth events are from the same room.
@@ -265,8 +265,16 @@ func (a *AuthEvents) AddEvent(event PDU) error {
 	if event.StateKey() == nil {
 		return fmt.Errorf("AddEvent: event %q does not have a state key", event.Type())
 	}
-	a.roomIDs[event.RoomID().String()] = struct{}{}
-	a.events[StateKeyTuple{event.Type(), *event.StateKey()}] = event
+	tuple := StateKeyTuple{event.Type(), *event.StateKey()}
+	if old, ok := a.events[tuple]; ok {
+		// the replaced event no longer counts towards the rooms seen
+		oldRoomID := old.RoomID().String()
+		if a.roomIDs[oldRoomID]--; a.roomIDs[oldRoomID] <= 0 {
+			delete(a.roomIDs, oldRoomID)
+		}
+	}
+	a.roomIDs[event.RoomID().String()]++
+	a.events[tuple] = event
 	return nil
 }
 
@@ -300,6 +308,9 @@ func (a *AuthEvents) Clear() {
 	for k := range a.events {
 		delete(a.events, k)
 	}
+	for k := range a.roomIDs {
+		delete(a.roomIDs, k)
+	}
 }
 
 // NewAuthEvents returns an AuthEventProvider backed by the given events. New events can be added by
@@ -307,7 +318,7 @@ func (a *AuthEvents) Clear() {
 func NewAuthEvents(events []PDU) (*AuthEvents, error) {
 	a := AuthEvents{
 		events:  make(map[StateKeyTuple]PDU, len(events)),
-		roomIDs: make(map[string]struct{}),
+		roomIDs: make(map[string]int),
 	}
 	for _, e := range events {
 		if err := a.AddEvent(e); err != nil {
